@@ -295,3 +295,36 @@ func init() {
 		return &TupleV{Vs: []Val{T(SStr, "bondDenom"), IntLit(0)}}
 	}
 }
+
+func init() {
+	bk := "github.com/cosmos/cosmos-sdk/x/bank/keeper"
+	page := func(m *Machine, _ *Frame, cc *ssa.CallCommon, a []Val) Val {
+		E := m.E
+		E.Assume("A-BANK-PAGE", "x/bank GetPaginatedTotalSupply returns one page of the supply: a valid coin list in which every listed denom carries its full supply (bank_page(supply) is an unknown but fixed selection)")
+		E.D.Fun("bank_page", []Sort{ArrSort(SStr, SInt)}, ArrSort(SStr, SInt))
+		sup := m.Supply()
+		pg := App(ArrSort(SStr, SInt), "bank_page", sup)
+		m.AssumeT(T(SBool, fmt.Sprintf("(forall ((d Str)) (! (or (= (select %s d) 0) (= (select %s d) (select %s d))) :pattern ((select %s d))))", pg.S, pg.S, sup.S, pg.S)))
+		m.AssumeT(T(SBool, fmt.Sprintf("(forall ((d Str)) (! (>= (select %s d) 0) :pattern ((select %s d))))", sup.S, sup.S)))
+		E.declCoinFuns(false)
+		coins := &CoinsV{Dec: false, M: pg}
+		rts := cc.Signature().Results()
+		pr := m.symbolicValue(rts.At(1).Type(), "pageres")
+		err := E.D.Fresh("err_page", SInt)
+		m.AssumeT(Ge(err, IntLit(0)))
+		return &TupleV{Vs: []Val{coins, pr, err}}
+	}
+	models["("+bk+".BaseKeeper).GetPaginatedTotalSupply"] = page
+	models["("+bk+".BaseViewKeeper).GetPaginatedTotalSupply"] = page
+	ghostFuns["pagesupply"] = func(ev *Evaluator, a []*Term) Val {
+		ev.E.D.Fun("bank_page", []Sort{ArrSort(SStr, SInt)}, ArrSort(SStr, SInt))
+		return Select(App(ArrSort(SStr, SInt), "bank_page", ev.M.Supply()), a[0])
+	}
+}
+
+func init() {
+	// err.Error(): the message text is not modelled (dropped by the extraction: error message text)
+	invokeModels["error.Error"] = func(m *Machine, _ *Frame, _ *ssa.CallCommon, a []Val) Val {
+		return m.E.D.Fresh("errmsg", SStr)
+	}
+}
